@@ -19,7 +19,7 @@ RULE = ("scenario = (history in {H1 USR2+TERM old, H2 USR2+QUIT old, H3 USR2+TER
         "H6 USR2+TERM old+USR2+TERM promoted}, bind in {tcp, unix}, worker class, signal timing); distinct = scenario tuple; every "
         "scenario is non-trivial (each has two masters alive under client load)")
 
-HISTORIES = ["H1", "H2", "H3", "H4", "H5", "H6", "H8", "H7", "H9"]
+HISTORIES = ["H1", "H2", "H3", "H4", "H5", "H6", "H8", "H7", "H9", "H10"]
 
 
 def read_pid(path):
@@ -139,6 +139,14 @@ def run_scenario(run, e4, sc):
                       "    _pre_exec_orig(server)\n"
                       "    if _os.path.exists(_os.path.join(_os.path.dirname(_os.path.abspath(__file__)), 'fail_exec')):\n"
                       "        raise RuntimeError('scripted failure before exec')\n")
+    if hist == "H10":
+        # the new master starts but gives up: its workers cannot load the application (while the file "fail_boot" exists), it
+        # exits with the boot-failure status.  Again the new side stopping: the old master carries on alone.
+        app_source = e4.APP_SOURCE.replace(
+            "import os, sys, time, signal, json\n",
+            "import os, sys, time, signal, json\n"
+            "if os.environ.get('GUNICORN_PID') and os.path.exists(os.path.join(os.path.dirname(os.path.abspath(__file__)), 'fail_boot')):\n"
+            "    raise RuntimeError('scripted failure while loading the application in the new release')\n", 1)
     srv = e4.Server("c14", worker_class=wc, workers=nworkers, settings=settings, bind=sc["bind"], app_source=app_source,
                     conf_extra=conf_extra)
     pidfile = os.path.join(srv.dir, "u.pid")
@@ -157,14 +165,24 @@ def run_scenario(run, e4, sc):
             t.start()
             threads.append(t)
         time.sleep(sc["delay0"])
-        if hist == "H9":
-            flag = os.path.join(srv.dir, "fail_exec")
+        if hist in ("H9", "H10"):
+            flag = os.path.join(srv.dir, "fail_exec" if hist == "H9" else "fail_boot")
             open(flag, "w").close()
             n_exec = len([e for e in srv.events() if e["kind"] == "pre_exec"])
             srv.signal(signal.SIGUSR2, old)
             if not wait_until(lambda: len([e for e in srv.events() if e["kind"] == "pre_exec"]) > n_exec, 10):
                 return v, "the pre_exec hook did not run", info
             run.count("upgrades_started")
+            if hist == "H10":
+                # the new master appears (a child of the old one that is not a worker) and goes away again
+                if not wait_until(lambda: any(p not in w_old for p in srv.children_of(old)), 10):
+                    return v, "no new master process appeared", info
+                if not wait_until(lambda: all(p in w_old for p in srv.children_of(old)) or not e4.alive(old), 25):
+                    return v, "the failing new master did not go away", info
+                if not e4.alive(old):
+                    v.append(("old-master-stopped-by-failed-upgrade", "the new master gave up (its workers could not load the application); "
+                              "the old master %d went down with it: %s" % (old, [ln for ln in srv.error_log().splitlines() if "rror" in ln][-3:])))
+                    return v, None, info
             # the failed child takes up to graceful_timeout to go away; whatever it does on its way out, the running
             # master's workers, socket file and pid file are not its to touch
             t0 = time.monotonic()
@@ -199,7 +217,7 @@ def run_scenario(run, e4, sc):
             run.count("first_exit_observed")
             if not v:
                 # the obstacle is gone: a later upgrade works
-                single_master_state(e4, srv, old, nworkers, pidfile, v, "after-H9")
+                single_master_state(e4, srv, old, nworkers, pidfile, v, "after-" + hist)
                 run.count("single_master_state_checks")
                 wait_until(lambda: len(srv.children_of(old)) == nworkers, 8)
                 w_s = srv.worker_pids(old)
@@ -415,7 +433,7 @@ def main(tier, seed):
     run = Run(PROP, tier, seed, "exploration", RULE)
     run.require("scenarios", "upgrades_started", "both_live_pidfile_checks", "second_usr2_ignored_checks", "first_exit_observed",
                 "single_master_state_checks", "second_upgrade_works_checks", "client_requests", "bind/tcp", "bind/unix",
-                "history/H1", "history/H3", "history/H5", "history/H6", "history/H8", "history/H7", "history/H9", "winch_backout_checks", "final_stop_checks", "respawn_after_upgrade_checks")
+                "history/H1", "history/H3", "history/H5", "history/H6", "history/H8", "history/H7", "history/H9", "history/H10", "winch_backout_checks", "final_stop_checks", "respawn_after_upgrade_checks")
     shards = [{"scenario": sc, "seed": seed, "tier": tier} for sc in scenarios(tier, seed)]
     run.assumptions = [
         "the new master is identified as the live child of the old master that emitted when_ready and is not one of its workers",
